@@ -114,6 +114,8 @@ class Interp:
         self.max_depth = max_depth
         self.init_state = {}
         self.mstate = {}   # model state of the path being executed (oracles may read and update it)
+        self.slice_len = None    # hook: length of a modelled slice value
+        self.index_hook = None   # hook: indexing into a modelled collection
 
     def freeze(self, env, v, depth=0):
         """values crossing a frame boundary: references into the caller's locals are replaced by the
@@ -140,6 +142,8 @@ class Interp:
                 a = a[:body.argc]
         sub = Interp(body, self.oracle, a, self.max_visits, self.max_paths, self.facts, self.inline, self.depth + 1, self.max_depth)
         sub.variant_index = self.variant_index
+        sub.slice_len = self.slice_len
+        sub.index_hook = self.index_hook
         sub.init_state = dict(self.mstate)
         outs = []
         for p in sub.run():
@@ -237,9 +241,17 @@ class Interp:
                 # downcast keeps the value; a mismatching variant is an impossible path
                 if isinstance(v, Agg) and v.variant is not None and e[2] is not None and v.variant != e[2]:
                     return TOP
+            elif e[0] == "ci" and isinstance(v, Agg) and v.kind in ("array", "slice", "tuple"):
+                idx = (len(v.fields) - e[1]) if e[2] else e[1]
+                v = v.fields[idx] if 0 <= idx < len(v.fields) else TOP
+            elif e[0] == "i" and isinstance(v, Agg) and v.kind in ("array", "slice"):
+                idx = env.get(e[1], TOP)
+                v = v.fields[idx] if isinstance(idx, int) and not isinstance(idx, bool) and 0 <= idx < len(v.fields) else TOP
             elif e[0] in ("i", "ci", "sub"):
                 if isinstance(v, Sym) and "[]" in v.fields:
                     v = v.fields["[]"]
+                elif self.index_hook is not None:
+                    v = self.index_hook(self, env, v, e)
                 else:
                     return TOP
             else:
@@ -393,6 +405,12 @@ class Interp:
                 return (not a) if isinstance(a, bool) else TOP
             if rv[1] == "Neg":
                 return -a if isinstance(a, (int, float)) else TOP
+            if rv[1] == "PtrMetadata":
+                if isinstance(a, Agg) and a.kind in ("array", "slice"):
+                    return len(a.fields)
+                if self.slice_len is not None:
+                    return self.slice_len(self, env, a)
+                return TOP
             return TOP
         if k == "cast":
             a = self.operand(env, rv[2])
@@ -437,6 +455,10 @@ class Interp:
                 return self.VARIANT_INDEX[key]
             if self.variant_index:
                 return self.variant_index(v[1], v[2])
+            if self.facts is not None and v[1] in self.facts.adts:
+                names = [x["name"] for x in self.facts.adts[v[1]]["variants"]]
+                if v[2] in names:
+                    return names.index(v[2])
             return TOP
         if isinstance(v, bool):
             return int(v)
